@@ -388,4 +388,198 @@ theorem set_spec (data : Bytes) (neg : Bool) (ip fp : List UInt8) (ec : UInt8) (
     congr 2
     omega
 
+/-! ## any number of digits: `set` always succeeds and builds a well-formed decimal in normal form -/
+
+/-- one digit of the mantissa loop, all three branches (`dropped` counts integer digits that did not fit) -/
+def pushAny (sawdot : Bool) (st : Decimal × Nat) (b : UInt8) : Decimal × Nat :=
+  if b == 48 && st.1.nd == 0 then ({ st.1 with dp := st.1.dp - 1 }, st.2)
+  else if st.1.nd < st.1.d.size then ({ st.1 with d := st.1.d.set! st.1.nd b, nd := st.1.nd + 1 }, st.2)
+  else (if b != 48 then { st.1 with trunc := true } else st.1, if !sawdot then st.2 + 1 else st.2)
+
+def pushAnyL (sawdot : Bool) : List UInt8 → Decimal × Nat → Decimal × Nat
+  | [], st => st
+  | b :: ds, st => pushAnyL sawdot ds (pushAny sawdot st b)
+
+theorem pushAny_good (sawdot : Bool) (st : Decimal × Nat) (b : UInt8) (hb : isDigit b = true) (hw : WF st.1) (hnz : NZ st.1) :
+    WF (pushAny sawdot st b).1 ∧ NZ (pushAny sawdot st b).1 ∧ (pushAny sawdot st b).1.neg = st.1.neg := by
+  have hbr : 48 ≤ b.toNat ∧ b.toNat ≤ 57 := by
+    have : (decide (48 ≤ b) && decide (b ≤ 57)) = true := hb
+    simp only [Bool.and_eq_true, decide_eq_true_eq, UInt8.le_iff_toNat_le] at this
+    exact this
+  simp only [pushAny]
+  by_cases hz : (b == 48 && st.1.nd == 0) = true
+  · rw [if_pos hz]; exact ⟨⟨hw.size, hw.nd, hw.digits⟩, hnz, rfl⟩
+  · rw [if_neg hz]
+    by_cases hfit : st.1.nd < st.1.d.size
+    · rw [if_pos hfit]
+      refine ⟨⟨by simp only []; rw [size_set!]; exact hw.size, by have := hw.size; simp only []; omega, ?_⟩, ?_, rfl⟩
+      · intro i hi
+        simp only [] at hi ⊢
+        by_cases hia : i = st.1.nd
+        · rw [hia, getElem!_set! st.1.d st.1.nd st.1.nd b hfit, if_pos rfl]; exact hbr
+        · rw [getElem!_set! st.1.d st.1.nd i b hfit, if_neg hia]; exact hw.digits i (by omega)
+      · intro _
+        show 1 ≤ dig (st.1.d.set! st.1.nd b) 0
+        by_cases hnd0 : st.1.nd = 0
+        · have hb48 : b ≠ 48 := by
+            intro h48
+            apply hz; simp [h48, hnd0]
+          unfold dig
+          rw [hnd0, getElem!_set! st.1.d 0 0 b (by omega), if_pos rfl]
+          have : b.toNat ≠ 48 := fun hh => hb48 (UInt8.toNat_inj.mp (by simpa using hh))
+          omega
+        · rw [dig_set_ne st.1.d st.1.nd 0 b hfit (by omega)]; exact hnz (by omega)
+    · rw [if_neg hfit]
+      split
+      · exact ⟨⟨hw.size, hw.nd, hw.digits⟩, hnz, rfl⟩
+      · exact ⟨hw, hnz, rfl⟩
+
+theorem pushAnyL_good (sawdot : Bool) : ∀ (ds : List UInt8) (st : Decimal × Nat), allDigits ds → WF st.1 → NZ st.1 →
+    WF (pushAnyL sawdot ds st).1 ∧ NZ (pushAnyL sawdot ds st).1 ∧ (pushAnyL sawdot ds st).1.neg = st.1.neg := by
+  intro ds
+  induction ds with
+  | nil => intro st _ hw hnz; exact ⟨hw, hnz, rfl⟩
+  | cons b ds ih =>
+    intro st hds hw hnz
+    obtain ⟨w1, z1, n1⟩ := pushAny_good sawdot st b (hds b (by simp)) hw hnz
+    obtain ⟨w2, z2, n2⟩ := ih (pushAny sawdot st b) (fun x hx => hds x (by simp [hx])) w1 z1
+    exact ⟨w2, z2, by rw [show pushAnyL sawdot (b :: ds) st = pushAnyL sawdot ds (pushAny sawdot st b) from rfl, n2, n1]⟩
+
+/-- a run of digits in `setLoop`, any length -/
+theorem setLoop_digitsAny (data : Bytes) : ∀ (ds r : List UInt8) (fuel i : Nat) (a : Decimal) (sawdot sd : Bool) (dropped : Nat),
+    allDigits ds → At data i (ds ++ r) → ds.length ≤ fuel →
+    setLoop data fuel i a sawdot sd dropped =
+      setLoop data (fuel - ds.length) (i + ds.length) (pushAnyL sawdot ds (a, dropped)).1 sawdot (sd || !ds.isEmpty) (pushAnyL sawdot ds (a, dropped)).2 := by
+  intro ds
+  induction ds with
+  | nil => intro r fuel i a sawdot sd dropped _ _ _; simp [pushAnyL]
+  | cons b ds ih =>
+    intro r fuel i a sawdot sd dropped hds hat hf
+    obtain ⟨fuel, rfl⟩ : ∃ f, fuel = f + 1 := ⟨fuel - 1, by simp only [List.length_cons] at hf; omega⟩
+    have hat0 : At data i (b :: (ds ++ r)) := by simpa using hat
+    obtain ⟨_, _, hat'⟩ := hat0.cons_inv
+    have hg : data[i]? = some b := by rw [at_get hat0]; rfl
+    have hb : isDigit b = true := hds b (by simp)
+    have hb46 : (b == 46) = false := by
+      by_cases hh : (b == 46) = true
+      · have : b = 46 := by simpa using hh
+        subst this; exact absurd hb (by decide)
+      · simpa using hh
+    have hbd : (decide (48 ≤ b) && decide (b ≤ 57)) = true := hb
+    simp only [List.length_cons] at hf
+    simp only [setLoop, hg, hb46, Bool.false_eq_true, if_false, hbd, if_true, pushAnyL, List.length_cons]
+    have hds' : allDigits ds := fun x hx => hds x (by simp [hx])
+    have e1 : fuel + 1 - (ds.length + 1) = fuel - ds.length := by omega
+    have e2 : i + (ds.length + 1) = i + 1 + ds.length := by omega
+    rw [e1, e2]
+    have hsd : (sd || !(b :: ds).isEmpty) = (true || !ds.isEmpty) := by simp
+    rw [hsd]
+    simp only [pushAny]
+    by_cases hz : (b == 48 && a.nd == 0) = true
+    · rw [if_pos hz, if_pos hz]
+      exact ih r fuel (i + 1) _ sawdot true dropped hds' hat' (by omega)
+    · rw [if_neg hz, if_neg hz]
+      by_cases hfit : a.nd < a.d.size
+      · rw [if_pos hfit, if_pos hfit]
+        exact ih r fuel (i + 1) _ sawdot true dropped hds' hat' (by omega)
+      · rw [if_neg hfit, if_neg hfit]
+        exact ih r fuel (i + 1) _ sawdot true _ hds' hat' (by omega)
+
+theorem setExp_good (data : Bytes) (a : Decimal) (p : Nat) (ec : UInt8) (sg eds : List UInt8)
+    (hat : At data p (expL ec sg eds ++ [])) (hed : allDigits eds) (hec : (ec == 101 || ec == 69) = true)
+    (hsg : sg = [] ∨ sg = [43] ∨ sg = [45]) (hg : Good0 a) :
+    ∃ b, setExp data a p = some b ∧ Good0 b ∧ b.neg = a.neg := by
+  rw [setExp_val data a p ec sg eds hat hed hec hsg]
+  exact ⟨_, rfl, ⟨⟨hg.wf.size, hg.wf.nd, hg.wf.digits⟩, hg.nz⟩, rfl⟩
+
+/-- **`decimal.set` on any complete number literal** succeeds and builds a well-formed decimal in normal form -/
+theorem set_total (data : Bytes) (neg : Bool) (ip fp : List UInt8) (ec : UInt8) (sg eds : List UInt8)
+    (h : Shape data.toList neg ip fp ec sg eds []) :
+    ∃ a, Decimal.set data = some a ∧ Good0 a ∧ a.neg = neg := by
+  have hat0 := At.start data
+  have hsize : data.size = data.toList.length := by simp
+  obtain ⟨b, ds, hipc⟩ : ∃ b ds, ip = b :: ds := by
+    cases hip : ip with
+    | nil => exact absurd hip h.ipNe
+    | cons b ds => exact ⟨b, ds, rfl⟩
+  have hb : isDigit b = true := h.ipDigits b (by rw [hipc]; simp)
+  have hb45 : (b == 45) = false := by
+    by_cases hh : (b == 45) = true
+    · have : b = 45 := by simpa using hh
+      subst this; exact absurd hb (by decide)
+    · simpa using hh
+  have hsz0 : (data.size == 0) = false := by
+    rw [hsize, h.eq, hipc]; cases neg <;> simp
+  have hstart : (data[0]! == 45) = neg ∧ At data (if neg then 1 else 0) (ip ++ (fracL fp ++ (expL ec sg eds ++ []))) := by
+    have heq := h.eq
+    cases hneg : neg with
+    | true =>
+      rw [hneg] at heq
+      simp only [if_true, List.cons_append, List.nil_append] at heq
+      rw [heq] at hat0
+      obtain ⟨_, _, hat1⟩ := hat0.cons_inv
+      exact ⟨by rw [at_getBang hat0]; rfl, by simpa using hat1⟩
+    | false =>
+      rw [hneg] at heq
+      simp only [Bool.false_eq_true, if_false, List.nil_append] at heq
+      rw [heq] at hat0
+      have hat0c : At data 0 (b :: (ds ++ (fracL fp ++ (expL ec sg eds ++ [])))) := by simpa [hipc] using hat0
+      exact ⟨by rw [at_getBang hat0c]; exact hb45, by simpa using hat0⟩
+  obtain ⟨hneg0, hatp⟩ := hstart
+  generalize hp0 : (if neg then 1 else 0) = p0 at hatp
+  have hl := hatp.length
+  simp only [List.length_append] at hl
+  -- the start state
+  have hw0 : WF ({ Decimal.zero with neg := neg } : Decimal) := ⟨zero_size, by simp [Decimal.zero], fun i hi => absurd hi (by simp [Decimal.zero])⟩
+  have hz0 : NZ ({ Decimal.zero with neg := neg } : Decimal) := fun hh => absurd hh (by simp [Decimal.zero])
+  -- integer digits
+  have h1 := setLoop_digitsAny data ip (fracL fp ++ (expL ec sg eds ++ [])) data.size p0 { Decimal.zero with neg := neg } false false 0
+    h.ipDigits hatp (by omega)
+  obtain ⟨w1, z1, n1⟩ := pushAnyL_good false ip ({ Decimal.zero with neg := neg }, 0) h.ipDigits hw0 hz0
+  generalize pushAnyL false ip ({ Decimal.zero with neg := neg }, 0) = st1 at h1 w1 z1 n1
+  have hipe : (false || !ip.isEmpty) = true := by rw [hipc]; rfl
+  rw [hipe] at h1
+  have hat1 : At data (p0 + ip.length) (fracL fp ++ (expL ec sg eds ++ [])) := at_drop_append hatp
+  -- the loop result and the state handed to the exponent part
+  have hloop : ∃ aL sawdot dr, setLoop data data.size p0 { Decimal.zero with neg := neg } false false 0 =
+      some (aL, sawdot, true, dr, p0 + ip.length + (fracL fp).length) ∧ Good0 aL ∧ aL.neg = neg := by
+    rw [h1]
+    cases hfp : fp with
+    | nil =>
+      rw [hfp] at hat1
+      simp only [fracL, List.nil_append, List.length_nil, Nat.add_zero] at hat1 ⊢
+      rw [setLoop_stop data _ _ _ _ false true _ hat1 (by simpa [fracL] using noDigitHead_tail [] ec sg eds h.ecE) (h.noDot hfp)]
+      exact ⟨st1.1, false, st1.2, rfl, ⟨w1, z1⟩, n1⟩
+    | cons d ds' =>
+      rw [hfp] at hat1 hl
+      have hat1' : At data (p0 + ip.length) (46 :: ((d :: ds') ++ (expL ec sg eds ++ []))) := by simpa [fracL] using hat1
+      obtain ⟨_, _, hat2⟩ := hat1'.cons_inv
+      obtain ⟨f, hf⟩ : ∃ f, data.size - ip.length = f + 1 := ⟨data.size - ip.length - 1, by simp [fracL] at hl; omega⟩
+      rw [hf, setLoop_dot data _ f _ _ true _ hat1']
+      simp only [fracL, List.length_cons] at hl
+      have hfpd : allDigits (d :: ds') := by rw [← hfp]; exact h.fpDigits
+      have h2 := setLoop_digitsAny data (d :: ds') (expL ec sg eds ++ []) f (p0 + ip.length + 1)
+        { st1.1 with dp := ((st1.1.nd + st1.2 : Nat) : ℤ) } true true st1.2 hfpd hat2 (by simp only [List.length_cons]; omega)
+      rw [h2]
+      obtain ⟨w2, z2, n2⟩ := pushAnyL_good true (d :: ds') ({ st1.1 with dp := ((st1.1.nd + st1.2 : Nat) : ℤ) }, st1.2) hfpd
+        ⟨w1.size, w1.nd, w1.digits⟩ z1
+      have hat3 : At data (p0 + ip.length + 1 + (d :: ds').length) (expL ec sg eds ++ []) := at_drop_append hat2
+      rw [setLoop_stop data _ _ _ _ true _ _ hat3 (h.fpStop (by rw [hfp]; simp)) (expL_no_dot ec sg eds h.ecE)]
+      refine ⟨(pushAnyL true (d :: ds') ({ st1.1 with dp := ((st1.1.nd + st1.2 : Nat) : ℤ) }, st1.2)).1, true,
+        (pushAnyL true (d :: ds') ({ st1.1 with dp := ((st1.1.nd + st1.2 : Nat) : ℤ) }, st1.2)).2, ?_, ⟨w2, z2⟩, by rw [n2]; exact n1⟩
+      simp only [fracL, List.length_cons, List.isEmpty_cons, Bool.not_false, Bool.true_or]
+      congr 5
+      omega
+  obtain ⟨aL, sawdot, dr, hloop, gL, nL⟩ := hloop
+  have hatE : At data (p0 + ip.length + (fracL fp).length) (expL ec sg eds ++ []) := at_drop_append (at_drop_append hatp)
+  have gadj : Good0 (if !sawdot then { aL with dp := ((aL.nd + dr : Nat) : ℤ) } else aL) ∧
+      (if !sawdot then { aL with dp := ((aL.nd + dr : Nat) : ℤ) } else aL).neg = neg := by
+    split
+    · exact ⟨⟨⟨gL.wf.size, gL.wf.nd, gL.wf.digits⟩, gL.nz⟩, nL⟩
+    · exact ⟨gL, nL⟩
+  obtain ⟨bE, hE, gE, nE⟩ := setExp_good data _ _ ec sg eds hatE h.edsDigits h.ecE h.sgS gadj.1
+  refine ⟨bE, ?_, gE, by rw [nE]; exact gadj.2⟩
+  simp only [Decimal.set, hsz0, Bool.false_eq_true, if_false, hneg0, hp0, hloop, Bool.not_true]
+  exact hE
+
 end RJson.Dec
